@@ -75,9 +75,12 @@ def key_of(m):
         return f"hugr of {last.split(':', 1)[1]} differs from the fresh-session reference"
     if m["kind"] == "outcome":
         return f"outcome of {last.split(':', 1)[1]}: spec {m['spec']} code {m['code']}"
-    extra = sorted(set(m["code"]) - set(m["spec"])) if isinstance(m["code"], list) else m["code"]
-    missing = sorted(set(m["spec"]) - set(m["code"])) if isinstance(m["code"], list) else m["spec"]
-    return f"engine state after {last}: {m['field']} extra={extra} missing={missing}"
+    if isinstance(m["code"], list):
+        extra, missing = set(m["code"]) - set(m["spec"]), set(m["spec"]) - set(m["code"])
+        how = "+".join(w for w, c in (("extra entries", extra), ("missing entries", missing)) if c) or "multiplicity"
+    else:
+        how = f"spec {m['spec']} code {m['code']}"
+    return f"engine state after {last}: {m['field']} ({how})"
 
 
 def report(ctx, bad):
